@@ -177,6 +177,14 @@ def _evaluate(sps, cache, dmg, order):
         shutil.copytree(tpl, d, symlinks=True)
         ws = os.path.join(d, "workspace")
         before_payloads, _ = payloads(ws)
+        # a session that got to know every job before the damage happened (its caches are warm)
+        warm = signac.Project(d)
+        try:
+            for i in ids:
+                warm.open_job(id=i).statepoint()
+            [j.statepoint() for j in warm]
+        except Exception:  # noqa
+            warm = None
         apply_damage(ws, ids, dmg)
         names = sorted(os.listdir(ws))
         verdict = {n: classify_dir(ws, n) for n in names}
@@ -200,6 +208,19 @@ def _evaluate(sps, cache, dmg, order):
             kind = "check-misses-damage" if damaged - got else "check-false-alarm"
             bad(kind, f"check() named {sorted(got)}, independent classification says {sorted(damaged)} "
                       f"({ {n: verdict[n][2] for n in names} })", sorted(damaged), sorted(got))
+
+        if warm is not None and exc is None:
+            try:
+                warm.check()
+                wgot = set()
+            except JobsCorruptedError as e:
+                wgot = set(e.job_ids)
+            except Exception as e:  # noqa
+                wgot = {f"{type(e).__name__}: {e}"}
+            if wgot != damaged:
+                bad("check-misses-damage" if damaged - wgot else "check-false-alarm",
+                    f"check() through a session that had read every state point before the damage named {sorted(wgot)}, "
+                    f"independent classification says {sorted(damaged)}", sorted(damaged), sorted(wgot), warm_session=True)
 
         # 2. opening by id never yields a state point whose hash differs from the id
         for n in names:
@@ -327,6 +348,35 @@ def sp_bytes(sp):
         return f.read()
 
 
+def typed_twins(sp):
+    """Other valid JSON that Python compares EQUAL to sp but that is another value (and hashes to another id): one number
+    or boolean re-typed (1 -> 1.0, 1 -> true, 0.5 -> 5e-1 is the same value and not included, true -> 1)."""
+    def variants(v):
+        if isinstance(v, bool):
+            yield int(v)
+        elif isinstance(v, int):
+            yield float(v)
+            if v in (0, 1):
+                yield bool(v)
+        elif isinstance(v, float) and v == int(v):
+            yield int(v)
+        elif isinstance(v, dict):
+            for k in v:
+                for x in variants(v[k]):
+                    yield dict(v, **{k: x})
+        elif isinstance(v, list):
+            for i in range(len(v)):
+                for x in variants(v[i]):
+                    yield v[:i] + [x] + v[i + 1:]
+    seen = set()
+    for t in variants(sp):
+        if canon.job_id(t) != canon.job_id(sp):
+            raw = json.dumps(t).encode()
+            if raw not in seen:
+                seen.add(raw)
+                yield raw
+
+
 def universe(tier):
     quick = tier == "quick"
     shapes = SHAPES
@@ -343,7 +393,7 @@ def universe(tier):
                         yield (sps, cache, [(0, "byte", (off, list(b)))])
             yield (sps, cache, [(0, "delete", None)])
             for rep in (b"{}", b"[]", b"1", b"null", other, json.dumps(sp, indent=2).encode(),
-                        json.dumps(dict(reversed(list(sp.items())))).encode(), raw + b"\n", b" " + raw):
+                        json.dumps(dict(reversed(list(sp.items())))).encode(), raw + b"\n", b" " + raw) + tuple(typed_twins(sp)):
                 yield (sps, cache, [(0, "replace", list(rep))])
             yield (sps, cache, [(0, "swap", 1)])
             yield (sps, cache, [(0, "rename", UNUSED_ID)])
